@@ -7,12 +7,14 @@
 template <class T, std::size_t N>
 class vf_static_queue {
 public:
-  alignas(T) unsigned char buf_[N][sizeof(T)];
+  // typed storage with manual lifetime: CBMC keeps the members of T (function pointers, control blocks) as separate fields
+  union cell_t { T v; cell_t() {} ~cell_t() {} };
+  cell_t buf_[N];
   unsigned char ord_[N] = {};
   unsigned char used_[N] = {};
   std::size_t size_ = 0;
-  T* slot(std::size_t s) { return reinterpret_cast<T*>(buf_[s]); }
-  const T* slot(std::size_t s) const { return reinterpret_cast<const T*>(buf_[s]); }
+  T* slot(std::size_t s) { return &buf_[s].v; }
+  const T* slot(std::size_t s) const { return &buf_[s].v; }
   std::size_t alloc_slot() { for (std::size_t s=0;s<N;++s) if (!used_[s]) { used_[s]=1; return s; } __builtin_trap(); }
   typedef T value_type; typedef std::size_t size_type;
   struct iterator {
